@@ -3,11 +3,13 @@ from .common import A_COMMON
 KS = "menelaus.data_drift.kdq_tree:KdqTreeStreaming"
 KB = "menelaus.data_drift.kdq_tree:KdqTreeBatch"
 TARGETS = [("fn", KS + ".update"), ("fn", KS + ".reset"), ("fn", KB + ".update"), ("fn", KB + ".set_reference"), ("fn", KB + ".reset"),
-           ("fn", KS + "._inner_set_reference"), ("fn", KB + "._inner_set_reference")]
+           ("fn", KS + "._inner_set_reference"), ("fn", KB + "._inner_set_reference"),
+           ("fn", KS + "._get_critical_kld"), ("fn", KB + "._get_critical_kld")]
 LEVEL = "exploration"
 LEVEL_TEXT = ('Bounded: KdqTreeBatch / KdqTreeStreaming against the rule recomputed from public outputs with the bootstrap re-drawn under the same seed (critical value, per-batch replacement of test counts, window / silence / persistence schedule, reference replacement). Deductive (counted separately): the control skeleton of KdqTreeStreaming.update / reset (window / silence / persistence schedule) and of KdqTreeBatch.update / set_reference / reset (first batch becomes the reference silently; afterwards drift <=> stored divergence > stored critical value; the drifted batch is remembered cell by cell and the tree is rebuilt from a block with its row count before the next batch is examined - ghost ref_rows) is proved with the partitioner opaque and _inner_set_reference assumed. Claimed as exploration.')
 ASSUMPTIONS = A_COMMON + [
-    "ASSUMED (unverified) contract: KdqTreeDetector._get_critical_kld (the Monte-Carlo critical value: some real number, no "
-    "side effect); KDQTreePartitioner is an opaque object in the skeleton proofs (construction, build, fill, kl_distance; "
+    "KdqTreeDetector._get_critical_kld (the Monte-Carlo critical value: some real number, no side effect) is verified per "
+    "receiver class with its bootstrap loop ABSTRACTED (the loop body is not verified; the tail - entropies, np.quantile - is); "
+    "its monotonicity in alpha is the two-run obligation KdqTree*_alpha under C17; KDQTreePartitioner is an opaque object in the skeleton proofs (construction, build, fill, kl_distance; "
     "leaf_counts of a build add up to the rows built - the C08 conservation claim); _inner_set_reference itself is verified per receiver class",
 ]
